@@ -4,7 +4,7 @@
 # current HEAD, keeps the repository's own test suite green, and that its demonstration fails with
 # the change and passes without it. Prints a JSON line.
 id="$1"; x="$2"
-src=/tmp/seed/$id
+src=${SEEDROOT:-/tmp/seed}/$id
 wt=/tmp/wt/verify-$id-$x
 export GOFLAGS=-mod=mod GOPROXY=off
 git -C /repo worktree remove --force "$wt" >/dev/null 2>&1
